@@ -386,6 +386,19 @@ func fuzzBases() [][]byte {
 			}
 		}
 	}
+	// what the library itself writes for its in-memory insertion index (codec 0x300003), alone and in the place of
+	// a CARv2's index: a reader must refuse or accept it, not fall over it
+	ins := index.NewInsertionIndex()
+	ins.Load([]index.Record{{Cid: alphaByID["b1"].Cid, Offset: 61}, {Cid: alphaByID["b4"].Cid, Offset: 103}})
+	var ib bytes.Buffer
+	if _, err := index.WriteTo(ins, &ib); err == nil {
+		out = append(out, append([]byte{}, ib.Bytes()...))
+		a := Arch{Ver: 2, Idx: "mh", Roots: []string{"b1"}, Secs: []string{"b1", "b4"}}
+		file := a.build()
+		if own := a.indexBytes(); own != nil && bytes.HasSuffix(file, own) {
+			out = append(out, append(append([]byte{}, file[:len(file)-len(own)]...), ib.Bytes()...))
+		}
+	}
 	return out
 }
 
